@@ -102,12 +102,15 @@ def run(tier):
     rendered = {}
     for flavour in ('pytz', 'dateutil'):
         for (a, b, h) in ranges:
+            zl = zones_by[flavour]
             if flavour == 'dateutil' and (a, b, h) != ranges[0] and tier == 'quick':
-                continue
+                if h < 24:
+                    continue
+                zl = zl[::6]      # sampling intervals of a day and more (the bisection spans days): every sixth zone
             tag = '%s_%d_%d_%d' % (flavour, a, b, h)
             sp = os.path.join(work, 'real_%s.json' % tag)
             op = os.path.join(work, 'realout_%s.json' % tag)
-            json.dump({'flavour': flavour, 'zones': zones_by[flavour], 'start': a, 'until': b, 'interval': h, 'full': (a, b, h) in (ranges[0], (2000, 2004, 22))}, open(sp, 'w'))
+            json.dump({'flavour': flavour, 'zones': zl, 'start': a, 'until': b, 'interval': h, 'full': (a, b, h) in (ranges[0], (2000, 2004, 22))}, open(sp, 'w'))
             rc, out, err, _ = common.run_cmd([common.PY, DRV, 'real', sp, op], env=env, timeout=6000)
             if rc != 0:
                 chk.violation('%s:real-crash' % flavour, 'generator driver failed on real zones: %s' % err[-1200:], {'stderr': err[-2500:]})
